@@ -184,8 +184,9 @@ func (h *H) respawnRounds(A, B, C *Node) {
 	for i := 0; i < rounds && !h.abort; i++ {
 		mode := modes[i%len(modes)]
 		plan := func(int) Plan { p := defaultPlan(); p.Mode, p.RandMax, p.Seed = mode, 9, h.seed+uint64(500+i); return p }
-		for _, pr := range [][2]*Node{{A, B}, {B, A}, {C, B}, {B, C}, {A, C}, {C, A}} {
-			if !h.resync(pr[0], pr[1], plan) {
+		// fresh connections, under this round's chunking, in the directions whose RECEIVING side is under test
+		for _, pr := range [][2]*Node{{A, B}, {C, B}, {A, C}} {
+			if !h.resync(pr[0], pr[1], plan) && !h.resync(pr[0], pr[1], plan) {
 				h.o.Monitor("c15-no-connection", nil, "no connection "+pr[0].Name+"->"+pr[1].Name)
 				h.abort = true
 				return
